@@ -201,7 +201,9 @@ A64 == "aaaaaaaaaaaaaaaaaaaaaaaaaaaaaaaaaaaaaaaaaaaaaaaaaaaaaaaaaaaaaaaa"
 A63 == "aaaaaaaaaaaaaaaaaaaaaaaaaaaaaaaaaaaaaaaaaaaaaaaaaaaaaaaaaaaaaaa"
 NameTBases == [T1 |-> One(<<T("label", "www"), T("label", "example"), T("label", "")>>, "."),
                T2 |-> One(<<T("label", "a\\046b"), T("label", "ex\\.ample")>>, "."),
-               T3 |-> One(<<T("label", "*"), T("label", A63), T("label", "")>>, ".")]
+               T3 |-> One(<<T("label", "*"), T("label", A63), T("label", "")>>, "."),
+               \* a non-ASCII name (cafe with E ACUTE): read through the IDNA path
+               T4 |-> One(<<T("label", "caf{U+00E9}"), T("label", "example"), T("label", "")>>, ".")]
 TtlBases == [L1 |-> One(<<T("ttl", "300")>>, " "), L2 |-> One(<<T("ttl", "1h30m")>>, " "),
              L3 |-> One(<<T("ttl", "1w2d3h4m5s")>>, " "), L4 |-> One(<<T("ttl", "4294967295")>>, " ")]
 \* LOC and GPOS fields are floating-point numbers
@@ -239,6 +241,22 @@ ZoneBases ==
         <<T("dir", "$TTL"), T("ttl", "300")>>,
         <<T("owner", "a"), T("type", "A"), T("gmark", "\\#"), T("glen", "4"), T("ghex", "c000"), T("ghex", "02"), T("ghex", "0"), T("ghex", "1")>>,
         <<T("owner", "b"), T("type", "TYPE65280"), T("gmark", "\\#"), T("glen", "4"), T("ghex", "0a00"), T("ghex", "00"), T("ghex", "0"), T("ghex", "1")>> >>]]
+\* zinc: a zone whose lines c+1 .. d live in an $INCLUDEd file.  Every line of the base is
+\* self-contained (own TTL and class), so that no split changes what the zone means.  The
+\* layout keeps the lines together; (c, d) is chosen by the first action ("split").
+ZincBases ==
+    [ZI |-> [sep |-> " ", nl |-> TRUE, c |-> 0, d |-> 0, lines |-> <<
+        <<T("owner", "@"), T("ttl", "300"), T("class", "IN"), T("type", "SOA"), T("name", "ns.example."),
+          T("name", "h.example."), T("int", "1"), T("int", "2"), T("int", "3"), T("int", "4"), T("int", "5")>>,
+        <<T("owner", "ns"), T("ttl", "60"), T("class", "IN"), T("type", "TXT"), T("str", "\"a b\""), T("str", "c")>>,
+        <<T("owner", "www"), T("ttl", "300"), T("class", "IN"), T("type", "A"), T("ip", "192.0.2.1")>>,
+        <<T("owner", "mail"), T("ttl", "300"), T("class", "IN"), T("type", "MX"), T("int", "10"), T("name", "mail")>> >>]]
+IncLine == <<T("dir", "$INCLUDE"), T("any", "sub.zone")>>
+ZincMain(x) == [lines |-> SubSeq(x.lines, 1, x.c) \o <<IncLine>> \o SubSeq(x.lines, x.d + 1, Len(x.lines)), sep |-> x.sep, nl |-> TRUE]
+ZincSub(x) == [lines |-> SubSeq(x.lines, x.c + 1, x.d), sep |-> x.sep, nl |-> TRUE]
+\* <<file, line>> of line l of the layout: file 0 = the top file, 1 = the included one
+ZincLoc(x, l) == IF l <= x.c THEN <<0, l>> ELSE IF l <= x.d THEN <<1, l - x.c>> ELSE <<0, l - x.d + x.c + 1>>
+ZincLen(x, file) == IF file = 1 THEN x.d - x.c ELSE Len(x.lines) - (x.d - x.c) + 1
 MsgTBases ==
     [X1 |-> [sep |-> " ", nl |-> TRUE, lines |-> <<
         <<T("any", "id"), T("int", "1234")>>,
@@ -294,6 +312,13 @@ TokVariant(name, s) ==
       [] name = "gm-widthhuge" -> "host${0," \o D5000 \o ",d}"
       [] name = "gm-off9" -> "host${999999999,2,d}"
       [] name = "gm-width9" -> "host${0,999999999,d}"
+      \* \DDD escapes whose "digits" are not ASCII: SUPERSCRIPT TWO / THREE, CIRCLED DIGIT ONE (digits
+      \* that are no decimals), ARABIC-INDIC DIGIT THREE (a non-ASCII decimal).  A TLA+ string is
+      \* ASCII, so a code point travels as {U+XXXX}; the driver decodes that before the call.
+      [] name = "escsup" -> s \o "\\{U+00B2}"
+      [] name = "esc1sup" -> s \o "\\1{U+00B2}{U+00B3}"
+      [] name = "esc12circ" -> s \o "\\12{U+2460}"
+      [] name = "escnd" -> s \o "\\{U+0663}{U+0663}{U+0663}"
       [] name = "nonhex1" -> s \o "g"                     \* generic form: a non-hex character (odd / even count)
       [] name = "nonhex2" -> s \o "gg"
       [] name = "hexmore" -> s \o "00"                    \*   more octets than the length says
@@ -313,23 +338,27 @@ QuoteNames == {"emptyq", "unterm", "nlq", "popen", "pclose"}
 NumNames == {"neg1", "big32", "big9", "huge", "huge5000", "altlow", "althigh"}
 \* variants carrying a 5000-digit string: applied as the only fault of an input (pairs with
 \* them would only multiply the volume of text)
+UniEscNames == {"escsup", "esc1sup", "esc12circ", "escnd"}
+\* the token faults applied to a zone split over an $INCLUDEd file (a small set: the point
+\* there is WHERE the error is reported)
+ZincNames == {"emptyq", "unterm", "badttl", "bogus", "esc1", "pclose", "popen", "esc1sup"}
 FloatNames == {"f-nan", "f-pnan", "f-nanm", "f-inf", "f-ninf", "f-e999", "f-em999", "f-hex"}
 HugeNames == {"huge5000", "hugeunit", "eschuge", "hugetype", "hugeclass", "gr-stophuge", "gr-starthuge", "gr-stephuge",
               "gm-offhuge", "gm-widthhuge"}
 VariantsOfRole(role) ==
-    CASE role = "label" -> EscNames \cup {"empty", "long"}
+    CASE role = "label" -> EscNames \cup UniEscNames \cup {"empty", "long"}
       [] role = "ttl" -> EscNames \cup QuoteNames \cup {"badttl", "hugeunit"} \cup NumNames
       [] role = "type" -> EscNames \cup QuoteNames \cup {"bogus", "bigtype", "hugetype"}
       [] role = "class" -> EscNames \cup QuoteNames \cup {"bogus", "bigclass", "hugeclass"}
       [] role = "grange" -> EscNames \cup QuoteNames \cup {"gr-stophuge", "gr-starthuge", "gr-stephuge", "gr-big9", "gr-step9"}
       [] role = "gmod" -> EscNames \cup QuoteNames \cup {"gm-offhuge", "gm-widthhuge", "gm-off9", "gm-width9"}
       [] role = "dir" -> {"dirgarbage", "emptyq"}
-      [] role \in {"any", "int"} -> EscNames \cup QuoteNames \cup NumNames
+      [] role \in {"any", "int"} -> EscNames \cup UniEscNames \cup QuoteNames \cup NumNames
       [] role = "float" -> EscNames \cup QuoteNames \cup NumNames \cup FloatNames
       [] role = "gmark" -> {"esc1", "emptyq", "bogus"}
       [] role = "glen" -> NumNames \cup {"zero", "badttl", "emptyq", "esc1"}
       [] role = "ghex" -> {"nonhex1", "nonhex2", "hexmore", "emptyq", "unterm", "esc1"}
-      [] OTHER -> EscNames \cup QuoteNames
+      [] OTHER -> EscNames \cup UniEscNames \cup QuoteNames
 GarbageLines == [g1 |-> <<T("dir", "$TTL")>>, g2 |-> <<T("dir", "$ORIGIN")>>,
                  g3 |-> <<T("dir", "$TTL"), T("any", "abc")>>, g4 |-> <<T("dir", "$BOGUS"), T("any", "x")>>,
                  g5 |-> <<T("dir", "$INCLUDE"), T("any", "nofile")>>, g6 |-> <<T("dir", "$GENERATE"), T("any", "1-2")>>,
@@ -344,25 +373,31 @@ TextFaults(x, k) ==
           ELSE {})
     \cup (IF k \in {"rdt", "rdg", "zone", "msgt", "ttl"} THEN {<<"add", l>> : l \in 1..Len(x.lines)} ELSE {})
     \cup (IF k = "zone" THEN {<<"ins", l, g>> : l \in 1..Len(x.lines), g \in DOMAIN GarbageLines} ELSE {})
+ZincFaults(x, h) ==
+    IF h = <<>> THEN {f \in {<<"split", c, d>> : c \in 0..(Len(x.lines) - 1), d \in 1..Len(x.lines)} : f[2] < f[3]}
+    ELSE {f \in TextFaults(x, "zone") : (f[1] = "tok" /\ f[4] \in ZincNames) \/ f[1] \in {"drop", "add"}}
 ApplyText(x, f) ==
-    CASE f[1] = "tok" -> [x EXCEPT !.lines[f[2]][f[3]] = <<"faulted", TokVariant(f[4], x.lines[f[2]][f[3]][2])>>]
+    CASE f[1] = "split" -> [x EXCEPT !.c = f[2], !.d = f[3]]
+      [] f[1] = "tok" -> [x EXCEPT !.lines[f[2]][f[3]] = <<"faulted", TokVariant(f[4], x.lines[f[2]][f[3]][2])>>]
       [] f[1] = "drop" -> [x EXCEPT !.lines[f[2]] = Remove(x.lines[f[2]], f[3])]
       [] f[1] = "add" -> [x EXCEPT !.lines[f[2]] = Append(x.lines[f[2]], T("faulted", "extra"))]
       [] f[1] = "ins" -> [x EXCEPT !.lines = Insert(x.lines, f[2], GarbageLines[f[3]])]
 
 (* ================================================================ the generator *)
-IsText(k) == k \in {"namet", "rdt", "rdg", "ttl", "zone", "msgt"}
+IsText(k) == k \in {"namet", "rdt", "rdg", "ttl", "zone", "zinc", "msgt"}
 BaseIds(k) == CASE k = "msg" -> DOMAIN MsgBases [] k = "namew" -> DOMAIN NameBases [] k = "rdw" -> RdKeys
                 [] k = "optw" -> OptKeys [] k = "namet" -> DOMAIN NameTBases [] k = "rdt" -> RdTextKeys
                 [] k = "ttl" -> DOMAIN TtlBases [] k = "zone" -> DOMAIN ZoneBases [] k = "msgt" -> DOMAIN MsgTBases
-                [] k = "optm" -> OptKeys [] k = "rdg" -> RdKeys
+                [] k = "optm" -> OptKeys [] k = "rdg" -> RdKeys [] k = "zinc" -> DOMAIN ZincBases
 BaseLay(k, b) == CASE k = "msg" -> MsgBases[b] [] k = "namew" -> NameBases[b] [] k = "rdw" -> Spec(b, RdWire[b])
                    [] k = "optw" -> Spec(b, OptWire[b]) [] k = "namet" -> NameTBases[b] [] k = "rdt" -> RdtBase(b)
                    [] k = "ttl" -> TtlBases[b] [] k = "zone" -> ZoneBases[b] [] k = "msgt" -> MsgTBases[b]
                    [] k = "optm" -> [id |-> b, code |-> OptCode[b], b |-> OptWire[b]] [] k = "rdg" -> RdgBase(b)
+                   [] k = "zinc" -> ZincBases[b]
 IsHuge(f) == f[1] = "tok" /\ f[4] \in HugeNames
 LayFaults(k, x, h) == CASE k = "msg" -> MsgFaults(x) [] k = "namew" -> NameFaults(x)
                         [] k \in {"rdw", "optw"} -> SpecFaults(x) [] k = "optm" -> OptmFaults(x)
+                        [] k = "zinc" -> ZincFaults(x, h)
                         [] OTHER -> IF h = <<>> THEN TextFaults(x, k)
                                     ELSE IF \E i \in 1..Len(h) : IsHuge(h[i]) THEN {}
                                     ELSE {f \in TextFaults(x, k) : ~IsHuge(f)}
@@ -387,7 +422,7 @@ PostOf(h) == IF h # <<>> /\ IsPost(h[Len(h)]) THEN h[Len(h)] ELSE NoPost
 
 Init == /\ kind \in Kinds /\ base \in BaseIds(kind) /\ lay = BaseLay(kind, base)
         /\ post = NoPost /\ nf = 0 /\ hist = <<>>
-Budget == IF base \in PairBases THEN MaxFaults ELSE 1
+Budget == IF kind = "zinc" THEN 2 ELSE IF base \in PairBases THEN MaxFaults ELSE 1     \* zinc: the split and one fault
 Fault == /\ post = NoPost /\ nf < Budget
          /\ \E f \in LayFaults(kind, lay, hist) : lay' = ApplyLay(kind, lay, f) /\ hist' = Append(hist, f)
          /\ nf' = nf + 1 /\ UNCHANGED <<kind, base, post>>
@@ -443,14 +478,16 @@ TokVerdict(k, role, v, last) ==
       [] v = "empty" -> IF last THEN "free" ELSE "err"       \* "a." is a name, "a..b" is not
       [] v = "emptyq" -> IF role \in {"str", "any", "float", "ghex"} THEN "free" ELSE "err"
       [] v = "esc0" -> IF role = "label" /\ last THEN "err" ELSE "free"
+      [] v \in UniEscNames -> "free"       \* an escaped literal, a bad escape or an IDNA failure
       [] v \in {"nonhex1", "nonhex2", "hexmore"} -> "err"
       [] v \in {"esc1", "esc2", "esc256", "esc999", "escbig9", "eschuge"} -> IF role \in {"any", "float"} THEN "free" ELSE "err"
       \* a TTL is a number 0 .. 2^32 - 1 (RFC 2181 section 8 caps it lower; the library documents 2^32 - 1)
       [] v \in {"neg1", "big32", "huge", "huge5000", "altlow", "althigh"} -> IF role = "ttl" THEN "err" ELSE "free"
       [] v = "big9" -> IF role = "ttl" THEN "ok" ELSE "free"
       [] OTHER -> "free"
-TextVerdict(k, b, h) ==
-    LET x == BaseLay(k, b) IN
+TextVerdict(k, b, h0) ==
+    LET x == BaseLay(k, b)
+        h == IF k = "zinc" /\ h0 # <<>> THEN Tail(h0) ELSE h0 IN      \* the split is no fault
     IF h = <<>> THEN "ok"
     ELSE IF Len(h) > 1 \/ k = "msgt" THEN "free"
     ELSE LET f == h[1]
@@ -469,6 +506,11 @@ TextVerdict(k, b, h) ==
 ZoneDecided(opts) == opts[2] = 1 /\ opts[3] = 0 /\ opts[4] = 1
 \* line of a decided single-fault zone error: the faulted line or the next one (the reader
 \* may already have consumed the end of line); an open parenthesis swallows the rest
+\* zinc: the file (0 top, 1 included) and the lines of a decided single-fault error
+ZincErrFile(x, h) == ZincLoc(x, h[2][2])[1]
+ZincErrLines(x, h) == LET f == h[2]
+                          loc == ZincLoc(x, f[2]) IN
+                      IF f[1] = "tok" /\ f[4] = "popen" THEN loc[2]..(ZincLen(x, loc[1]) + 2) ELSE loc[2]..(loc[2] + 2)
 ErrLines(k, b, h) == LET f == h[1] IN
                      IF f[1] = "tok" /\ f[4] = "popen" THEN f[2]..(Len(BaseLay(k, b).lines) + 2) ELSE f[2]..(f[2] + 2)
 =============================================================================
